@@ -287,7 +287,7 @@ def mk_midpoint(shape_id, _replay=None):
 
     assumptions = [v > 0 for v in lv]
     if not W.reach("end"):
-        paths, stats = psx.explore(run, assumptions, max_paths=50)
+        paths, stats = psx.explore(run, assumptions, max_paths=5000)
         ok = any(p.exc is None for p in paths)
         return {"status": "cex" if ok else "inconclusive", "cex": {"twin": f"{len(paths)} feasible paths reach the end"}}
     paths, stats = psx.explore(run, assumptions, max_paths=5000)
